@@ -40,6 +40,7 @@ def run_calls(cfg, ids=None, role="single"):
     prob = Problem(c["dims"], c["width"], c["center"])
     prob.recipe = bool(c["recipe"])
     tr = Tracer(prob, ids, fault_k=c["fault_k"], recipe=c["recipe"])
+    tr.ret64 = bool(c.get("ret64"))
     flow = smcdrv.make_flow(dict(smcdrv.DEFAULT, **{k: c[k] for k in ("dims", "flow_seed", "dtype", "bad_frac")}), prob, xp)
     tr.flow = flow
     minipcn_stub.reset(); emcee_stub.reset()
@@ -176,7 +177,8 @@ def project_calls_group(gid, runs):
                 size_ok = len(res.x) == exp_n
             evs.append({"t": "result", "nlike": int(S.n_likelihood_evaluations),
                         "coh": [bool(x) for x in cc if x is not None], "size_ok": bool(size_ok),
-                        "width_ok": bool(width_of(res.x) == want_w and ns_of(res.x) == (c.get("out_ns") or c["ns"])),
+                        "width_ok": bool(all(width_of(v) == want_w for v in (res.x, res.log_likelihood, res.log_prior, getattr(res, "log_q", None), getattr(res, "log_w", None)) if v is not None)
+                                         and ns_of(res.x) == (c.get("out_ns") or c["ns"])),
                         "ids": rid})
         out_runs.append({"role": r["role"], "status": r["status"], "exc": r["exc"][:200], "ev": evs,
                          "resumed": False, "orng_created": int(r["orng_created"]),
